@@ -37,7 +37,7 @@ TwoObjOps == {"swap", "fswap", "copy_assign", "move_assign", "ctor_copy", "ctor_
 AllOps == PushOps \cup UncheckedOps \cup TryOps \cup InsertOneOps \cup TwoObjOps \cup
           {"pop_back", "insert_fill", "insert_range", "insert_self", "erase_pos", "erase_range",
            "clear", "resize", "resize_val", "assign_fill", "assign_range", "ctor_default",
-           "ctor_n", "ctor_fill", "ctor_range", "erase_val", "erase_if_odd", "at", "front", "back"}
+           "ctor_n", "ctor_fill", "ctor_range", "erase_val", "erase_if_odd", "at", "front", "back", "ctor_dinit"}
 ReadOps == {"at", "front", "back"}    \* element access with a documented precondition
 
 \* ---- precondition: the call is inside the domain the property quantifies over ---------------
@@ -80,7 +80,7 @@ Tgt(op, o, x, s, cap) ==
       [] op = "resize_val" -> [els |-> IF x.n <= n THEN SubSeq(e, 1, x.n) ELSE e \o Fill(x.n - n, x.v), ret |-> 0]
       [] op \in {"assign_fill", "ctor_fill"} -> [els |-> Fill(x.n, x.v), ret |-> 0]
       [] op \in {"assign_range", "ctor_range"} -> [els |-> x.xs, ret |-> 0]
-      [] op = "ctor_default" -> [els |-> <<>>, ret |-> 0]
+      [] op \in {"ctor_default", "ctor_dinit"} -> [els |-> <<>>, ret |-> 0]
       [] op = "ctor_n" -> [els |-> Fill(x.n, DefaultVal), ret |-> 0]
       [] op \in {"swap", "fswap", "copy_assign", "move_assign", "ctor_copy", "ctor_move"} -> [els |-> s[x.src], ret |-> 0]
       [] op = "erase_val" -> [els |-> SelectSeq(e, LAMBDA y : y # x.v), ret |-> Count(e, LAMBDA y : y = x.v)]
@@ -126,6 +126,7 @@ CmpOK(c, a, b) ==       \* c = <<eq, ne, lt, le, gt, ge>> of a against b
     /\ c[6] = ~LexLess(a, b)
 
 ObsOK(obs, t, cap) ==
+    /\ "corrupt" \notin DOMAIN obs
     /\ ObsOne(obs.a, t.a, cap)
     /\ ObsOne(obs.b, t.b, cap)
     /\ "cmp" \in DOMAIN obs => CmpOK(obs.cmp, t.a, t.b)
